@@ -145,3 +145,47 @@ pub struct PrivateModules;
 /// let _ = p.to_naive_date();
 /// ```
 pub struct ParsedIsOpen;
+
+/// One write witness per remaining invariant field (a single field made `pub` must be noticed).
+/// ```compile_fail,E0616
+/// let mut d = chrono::TimeDelta::zero();
+/// d.secs = i64::MAX;
+/// ```
+/// ```compile_fail,E0616
+/// let mut t = chrono::NaiveTime::MIN;
+/// t.secs = 90_000;
+/// ```
+/// ```compile_fail,E0616
+/// let mut dt = chrono::NaiveDateTime::MIN;
+/// dt.date = chrono::NaiveDate::MAX;
+/// ```
+/// ```compile_fail,E0616
+/// let mut dt = chrono::NaiveDateTime::MIN;
+/// dt.time = chrono::NaiveTime::MIN;
+/// ```
+/// ```compile_fail,E0616
+/// let mut o = chrono::FixedOffset::east_opt(0).unwrap();
+/// o.local_minus_utc = 1_000_000;
+/// ```
+/// ```compile_fail,E0616
+/// let mut s = chrono::WeekdaySet::EMPTY;
+/// s.0 = 0xff;
+/// ```
+/// ```compile_fail,E0616
+/// let mut d = chrono::TimeDelta::zero();
+/// d.nanos = -1;
+/// ```
+/// ```no_run
+/// let mut d = chrono::TimeDelta::zero();
+/// let mut t = chrono::NaiveTime::MIN;
+/// let mut dt = chrono::NaiveDateTime::MIN;
+/// let mut o = chrono::FixedOffset::east_opt(0).unwrap();
+/// let mut s = chrono::WeekdaySet::EMPTY;
+/// d = chrono::TimeDelta::MAX;
+/// t = chrono::NaiveTime::from_hms_opt(1, 2, 3).unwrap();
+/// dt = chrono::NaiveDateTime::MAX;
+/// o = chrono::FixedOffset::west_opt(3600).unwrap();
+/// s = chrono::WeekdaySet::ALL;
+/// let _ = (d, t, dt, o, s);
+/// ```
+pub struct FieldWrites;
